@@ -396,7 +396,7 @@ impl Property for C10 {
     }
 
     fn cases(tier: Tier) -> u32 {
-        tier.pick(8_000, 600_000)
+        tier.pick(24_000, 600_000)
     }
 
     fn run(case: &Case, ctx: &mut Ctx) {
